@@ -58,7 +58,7 @@ class C01(object):
     id = "C01"
     engine = "simomp"
     time_keys = {"steps": "scheduler steps (one per instrumented access, GOMP entry or allocator call)"}
-    fault_keys = ["switches", "realloc_moved", "realloc_stay", "alloc", "free", "parallel_runs", "np_empty_garbage_buffers", "history_runs(in-place parameter edit between updates)"]
+    fault_keys = ["switches", "realloc_moved", "realloc_stay", "alloc", "free", "parallel_runs", "np_empty_garbage_buffers", "history_runs(in-place parameter edit between updates)", "concurrent_python_callers", "second_Ctransform_alive"]
     tiers = {"quick": {"runs": 5000, "budget_s": 55, "selftest_every": 50, "fresh_selftest": 6},
              "thorough": {"runs": 3000000, "budget_s": 800, "selftest_every": 300, "fresh_selftest": 12}}
     rule = ("one run = (parameter set drawn swarm style, 1..3000 peaks with counts on team*k and team*k+-1, team 1..32 "
@@ -85,6 +85,7 @@ class C01(object):
         self.transform, self.columnfile, self.parameters, self.pbp = transform, columnfile, parameters, pbp
         self.proxy = NPProxy(np)
         transform.np = self.proxy
+        self.threadsafe = set(kernels.threadsafe_kernels())
         # compile the numba copies once, in the parent
         sc = np.arange(4.0)
         pbp.compute_gve(sc, sc + 1, sc * 10, 0.0, 1e5, 1000., 50., 0., 1000., 50., 0., 0., 1., 0., 0., -1., 0., 0., 0., 0., 0., 0.3)
@@ -108,6 +109,10 @@ class C01(object):
                 "cfg": cfgK, "cfgP": cfgP, "use_translation_arg": rnd.random() < 0.3,
                 "route": rnd.choice(["updateGeometry", "updateGeometry", "updateGV", "sf2gv", "get_local_gv"]),
                 "numba": rnd.random() < 0.35, "gstyle": rnd.choice([0, 1]),
+                # other users of the geometry code alive at the same time: Python threads inside the GIL-releasing kernels
+                # with their own parameters, and a second Ctransform object for another parameter set
+                "concurrent": [draw_pars(rnd) for _ in range(rnd.choice([0, 0, 1, 2]))], "ccfg": enginea.draw_cfg(rnd, max_team=4),
+                "other_ct": draw_pars(rnd) if rnd.random() < 0.5 else None,
                 # history: a long-lived columnfile first updated with OTHER parameters, which are then edited in place
                 "history": None if rnd.random() < 0.5 else {"first_pars": (draw_pars(rnd) if rnd.random() < 0.6 else "tiny"),
                                                             "tiny": [rnd.choice(["distance", "y_center", "z_center", "y_size", "z_size",
@@ -129,6 +134,7 @@ class C01(object):
         viol = None
         # ---------------- K: strict kernels
         ct = tr.Ctransform(pars)
+        ct_other = tr.Ctransform(desc["other_ct"]) if desc.get("other_ct") else None   # stays alive to the end of the run
         tvec = np.array([pars["t_x"], pars["t_y"], pars["t_z"]])
         vals = {"s": sc, "f": fc, "p": ct.cen, "r": ct.rmat, "dist": ct.distance_vec, "xlylzl": [n, 3], "n": n}
         ret, a1, st1 = kernels.run_kernel(sim, "compute_xlylzl", vals,
@@ -170,6 +176,34 @@ class C01(object):
                 viol = {"class": "kernels-disagree", "key": "compute_gv:kernels-disagree",
                         "detail": "compute_gv and compute_geometry give different g-vectors for the same input "
                                   "(max diff %.3g)" % dk.max()}
+        # ---------------- concurrent callers of the kernels f2py runs without the GIL (each with its own parameter set)
+        n_conc = 0
+        if viol is None and K and desc.get("concurrent") and "compute_geometry" in self.threadsafe:
+            others = desc["concurrent"]
+            mk = lambda q: {"xlylzl": xyz, "omega": om, "omegasign": q["omegasign"], "wvln": q["wavelength"], "wedge": q["wedge"],
+                            "chi": q["chi"], "t": np.array([q["t_x"], q["t_y"], q["t_z"]]), "out": [n, 6], "ng": n}
+            roles = {"xlylzl": "in", "omega": "in", "t": "in", "out": "out"}
+            solo = [a2["out"]]
+            for q in others:
+                r_, aq, stq = kernels.run_kernel(sim, "compute_geometry", mk(q), roles, dict(cfg, team=1), gstyle=desc["gstyle"],
+                                                 track_conflicts=0)
+                sts.append(stq)
+                solo.append(aq["out"].copy())
+            outs, stc = kernels.run_concurrent(sim, [("compute_geometry", mk(q), roles) for q in [pars] + others], desc["ccfg"],
+                                               gstyle=desc["gstyle"], pct_est=max(40, 60 * n))
+            sts.append(stc)
+            n_conc = len(others) + 1
+            v = enginea.viol_from_stats(stc, "compute_geometry", kernels.region_names("compute_geometry"))
+            if v is not None:
+                viol = v
+            else:
+                for q, (r_, arrs) in enumerate(outs):
+                    if arrs["out"].tobytes() != solo[q].tobytes():
+                        viol = {"class": "not-reentrant", "key": "compute_geometry:not-reentrant",
+                                "detail": "%d Python threads inside compute_geometry at once, each with its own parameters (wedge/chi "
+                                          "%s): caller %d gets other values than when it calls alone" %
+                                          (n_conc, [(q2["wedge"], q2["chi"]) for q2 in [pars] + others], q)}
+                        break
         # ---------------- R: reference (slow Python route)
         P = prm.parameters(**pars)
         base = cfm.colfile_from_dict({"sc": sc.copy(), "fc": fc.copy(), "omega": om.copy()})
@@ -247,6 +281,12 @@ class C01(object):
             elif route == "sf2gv":
                 gv = ct.sf2gv(sc, fc, om, pars["t_x"], pars["t_y"], pars["t_z"])
                 Pcols = {"gx": gv[:, 0], "gy": gv[:, 1], "gz": gv[:, 2]}
+                x3 = ct.sf2xyz(sc, fc)
+                o6 = ct.xyz2geometry(x3, om, pars["t_x"], pars["t_y"], pars["t_z"])
+                for i_, c_ in enumerate(("xl", "yl", "zl")):
+                    Pcols[c_] = x3[:, i_]
+                for i_, c_ in enumerate(("tth", "eta", "ds")):
+                    Pcols[c_] = o6[:, i_]
             else:
                 # point-by-point: the grain position enters by shifting xl; compare with the kernel at t = 0
                 pbp.parglobal = P
@@ -286,11 +326,14 @@ class C01(object):
             tth, eta = pbp.compute_tth_eta_from_xyz(x, oms, p["t_x"], p["t_y"], p["t_z"], p["wedge"], p["chi"])
             kk = pbp.compute_k_vectors(tth, eta, p["wavelength"])
             gg = pbp.compute_g_from_k(kk, oms, p["wedge"], p["chi"])
+            gg_again = pbp.compute_g_from_k(kk, oms, p["wedge"], p["chi"])    # the k-vectors are cached and used again
             ge = pbp.compute_gve(sc, fc, oms, 0.0, p["distance"], p["y_center"], p["y_size"], p["tilt_y"], p["z_center"],
                                  p["z_size"], p["tilt_z"], p["tilt_x"], float(p["o11"]), float(p["o12"]), float(p["o21"]),
                                  float(p["o22"]), p["t_x"], p["t_y"], p["t_z"], p["wedge"], p["chi"], p["wavelength"])
             N = {"xl": x[0], "yl": x[1], "zl": x[2], "tth": tth, "eta": eta, "gx": gg[0], "gy": gg[1], "gz": gg[2]}
             viol = tol_compare("numba", N, ["xl", "yl", "zl", "tth", "eta", "gx", "gy", "gz"])
+            if viol is None:
+                viol = tol_compare("numba-cached-k", {"gx": gg_again[0], "gy": gg_again[1], "gz": gg_again[2]}, ["gx", "gy", "gz"])
             if viol is None:
                 viol = tol_compare("numba-gve", {"gx": ge[0], "gy": ge[1], "gz": ge[2]}, ["gx", "gy", "gz"])
         meas = None
@@ -305,6 +348,8 @@ class C01(object):
                     meas["team_delivered"][k2] = meas["team_delivered"].get(k2, 0) + v2
         meas["route"] = {route: 1}
         meas["numba_checked"] = 1 if desc["numba"] else 0
+        meas["concurrent_python_callers"] = n_conc
+        meas["second_Ctransform_alive"] = 1 if ct_other is not None else 0
         meas["history_runs(in-place parameter edit between updates)"] = 1 if (desc.get("history") and route in ("updateGeometry", "updateGV")) else 0
         meas["branch_cut_peaks_excluded"] = int(cut.sum())
         meas["np_empty_garbage_buffers"] = self.proxy.count
